@@ -101,6 +101,23 @@ def strategy(args: dict) -> st.SearchStrategy:
     return c02.strategy(args)
 
 
+TYPE_VARIABLES: set[str] = set()  # names of the type variables of the package under judgement (set by judge)
+
+
+def _collect_tvars(x: Any, out: set[str]) -> None:
+    if isinstance(x, list):
+        if len(x) >= 2 and x[0] == "tvar" and isinstance(x[1], str):
+            out.add(x[1])
+        for y in x:
+            _collect_tvars(y, out)
+    elif isinstance(x, dict):
+        if "tparams" in x:
+            for tp in x["tparams"]:
+                out.add(tp["name"])
+        for y in x.values():
+            _collect_tvars(y, out)
+
+
 def norm_type(t: Any, convert_synthetic: bool) -> Any:
     if t is None:
         return None
@@ -108,7 +125,9 @@ def norm_type(t: Any, convert_synthetic: bool) -> Any:
     if k == "nullable":
         return ("nullable", norm_type(t[1], convert_synthetic))
     if k == "named":
-        return ("named", t[1], tuple(norm_type(a, convert_synthetic) for a in t[2]))
+        # a reference to a type variable is renamed like its declaration (type parameters are lowerCamelCase under -nc)
+        nm = names.ref_convert(t[1]) if convert_synthetic and t[1] in TYPE_VARIABLES else t[1]
+        return ("named", nm, tuple(norm_type(a, convert_synthetic) for a in t[2]))
     if k == "union":
         return ("union", tuple(norm_type(a, convert_synthetic) for a in t[1]))
     if k == "callable":
@@ -189,6 +208,8 @@ def judge(case: dict) -> dict:
     if "name" in case:  # replay of a finding about the pure conversion function
         return {"discs": check_name(case["name"]), "nontrivial": [], "evals": 1, "stats": [], "sample": None}
     pkg = case["pkg"]
+    TYPE_VARIABLES.clear()
+    _collect_tvars(pkg, TYPE_VARIABLES)
     files = gt.render_package(pkg)
     gt.check_compiles(files)
     opts = {k: v for k, v in case["options"].items() if k != "nc"}
